@@ -342,7 +342,7 @@ func c05build(cs c05case) (*c05env, error) {
 			return eff
 		}
 	case "au":
-		dev := sim.NewLogin("admin", "s3cret")
+		dev := sim.NewC05Login("admin", "s3cret")
 		dev.Seg = c05seg(cs)
 		e.pipe = dev.Pipe
 		d, err := generic.NewDriver("h", append(common, options.WithCustomTransport(dev),
